@@ -36,6 +36,13 @@ def configs(tier):
                         if 2 * rows + 1 > 4 * ne:
                             continue
                         out.append({'fn': '2d', 'epochs': ne, 'rows': rows, 'centre': centre, 'kw': kw, 'method': method})
+    # the same option object(s) used for a second analysis
+    for kw in ('dict', 'list'):
+        out.append({'fn': '2d', 'epochs': 2, 'rows': 3, 'centre': 'trough', 'kw': kw, 'method': 'cycles', 'repeat': True})
+    # epochs stored column-major / as the transpose of a (samples, epochs) recording
+    for lay in ('F', 'T'):
+        out.append({'fn': '2d', 'epochs': 2, 'rows': 2, 'centre': 'peak', 'kw': 'dict', 'method': 'cycles', 'layout': lay})
+        out.append({'fn': '2d', 'epochs': 3, 'rows': 3, 'centre': 'peak', 'kw': 'list', 'method': 'cycles', 'layout': lay})
     return out
 
 
@@ -134,6 +141,10 @@ def run(ctx, cfg):
     data, scols = flat_table(ctx, rows, centre, ne * el + 0 * elen, method)
     vals = [[ctx.real('x%d_%d' % (e, k)) for k in range(el)] for e in range(ne)]
     arr = np.array([list(r) for r in vals], dtype=float)
+    if cfg.get('layout') == 'F':
+        arr = np.asfortranarray(arr)
+    elif cfg.get('layout') == 'T':
+        arr = np.array([[vals[e][k] for e in range(ne)] for k in range(el)], dtype=float).T     # view of (samples, epochs)
     calls = []
     real_sig = inspect.signature(ff.compute_features)
 
@@ -171,6 +182,9 @@ def run(ctx, cfg):
     saved = gf.compute_features
     gf.compute_features = rec
     try:
+        if cfg.get('repeat'):
+            gf.compute_features_2d(arr, 500.0, (8.0, 12.0), compute_features_kwargs=kwargs, axis=None)
+            del calls[:]
         dfs = gf.compute_features_2d(arr, 500.0, (8.0, 12.0), compute_features_kwargs=kwargs, axis=None)
     except Exception as e:
         ctx.fail(exc_label(e))
